@@ -24,6 +24,13 @@ def field_aliases(prog, m, field):
   for n in walk_local(m.node):
     if isinstance(n, ast.Assign) and len(n.targets) == 1 and isinstance(n.targets[0], ast.Name):
       defs.setdefault(n.targets[0].id, []).append(('=', n.value))
+    elif isinstance(n, ast.Assign) and len(n.targets) == 1 and isinstance(n.targets[0], (ast.Tuple, ast.List)):
+      # unpacking: a plain target is an element of the value, a starred one a list of its elements
+      for e_ in n.targets[0].elts:
+        if isinstance(e_, ast.Name):
+          defs.setdefault(e_.id, []).append(('in', n.value))
+        elif isinstance(e_, ast.Starred) and isinstance(e_.value, ast.Name):
+          defs.setdefault(e_.value.id, []).append(('=', n.value))
     elif isinstance(n, ast.For):
       for x in ast.walk(n.target):
         if isinstance(x, ast.Name):
